@@ -107,6 +107,19 @@ macro_rules! str_type {
                 same($ctx, $name, "Buf Display", b, o.to_string().as_bytes());
                 same($ctx, $name, "Buf Debug", format!("{:?}", s).as_bytes(), format!("{:?}", o).as_bytes());
                 same($ctx, $name, "Clone", b, o.clone().as_bytes());
+                // the rarely called siblings: clone_from / clone_into overwrite an existing buffer
+                {
+                    let mut tgt = o.clone();
+                    tgt.clone_from(&o);
+                    same($ctx, $name, "Clone::clone_from", b, tgt.as_bytes());
+                    let mut tgt2 = o.clone();
+                    std::borrow::ToOwned::clone_into(v, &mut tgt2);
+                    same($ctx, $name, "ToOwned::clone_into", b, tgt2.as_bytes());
+                    let bv: &$T = std::borrow::Borrow::borrow(&o);
+                    same($ctx, $name, "Borrow", b, bv.as_bytes());
+                    let dv: &$T = &*o;
+                    same($ctx, $name, "Deref", b, dv.as_bytes());
+                }
                 same($ctx, $name, "into_string", b, o.clone().into_string().as_bytes());
                 same($ctx, $name, "into_bytes", b, &o.clone().into_bytes());
                 same($ctx, $name, "String::from(Buf)", b, String::from(o.clone()).as_bytes());
@@ -174,6 +187,19 @@ macro_rules! bytes_type {
                 same($ctx, $name, "Buf Display", b, o.to_string().as_bytes());
                 same($ctx, $name, "Buf Debug", format!("{:?}", s).as_bytes(), format!("{:?}", o).as_bytes());
                 same($ctx, $name, "Clone", b, o.clone().as_bytes());
+                // the rarely called siblings: clone_from / clone_into overwrite an existing buffer
+                {
+                    let mut tgt = o.clone();
+                    tgt.clone_from(&o);
+                    same($ctx, $name, "Clone::clone_from", b, tgt.as_bytes());
+                    let mut tgt2 = o.clone();
+                    std::borrow::ToOwned::clone_into(v, &mut tgt2);
+                    same($ctx, $name, "ToOwned::clone_into", b, tgt2.as_bytes());
+                    let bv: &$T = std::borrow::Borrow::borrow(&o);
+                    same($ctx, $name, "Borrow", b, bv.as_bytes());
+                    let dv: &$T = &*o;
+                    same($ctx, $name, "Deref", b, dv.as_bytes());
+                }
                 same($ctx, $name, "into_string", b, o.clone().into_string().as_bytes());
                 same($ctx, $name, "into_bytes", b, &o.clone().into_bytes());
                 same($ctx, $name, "String::from(Buf)", b, String::from(o.clone()).as_bytes());
